@@ -236,11 +236,11 @@ def synthetic_zones(rng, tier):
     abbr = b"LMT\0STD\0DST\0"
     base_types = [(-17762, 0, 0), (-18000, 0, 4), (-14400, 1, 8)]
     t0 = -2717650800
-    def mk(name, footer, std=-18000, dst=-14400, version=b"2", times=None, idx=None, types=None, ab=None, v1=True):
+    def mk(name, footer, std=-18000, dst=-14400, version=b"2", times=None, idx=None, types=None, ab=None, v1=True, isstd=0, isut=0):
         ty = types or [(-17762 if std <= 0 else 17762, 0, 0), (std, 0, 4), (dst, 1, 8)]
         tm = times if times is not None else [t0, 100000000, 110000000, 131000000, 141000000]
         ix = idx if idx is not None else [1, 2, 1, 2, 1]
-        out.append((name, tzif.write_tzif(version, tm, ix, ty, ab or abbr, footer, v1_block=v1)))
+        out.append((name, tzif.write_tzif(version, tm, ix, ty, ab or abbr, footer, v1_block=v1, isstd=isstd, isut=isut)))
     k = 0
     for w in range(1, 6):
         for (m, d) in [(3, 0), (1, 6), (12, 3), (2, 1), (10, 5)]:
@@ -287,6 +287,13 @@ def synthetic_zones(rng, tier):
     mk("syn_type0_dst_first", b"<-03>3", times=[-1000000000, -990000000, -970000000, -960000000], idx=[0, 1, 0, 1],
        types=[(-7200, 1, 4), (-10800, 0, 0)], ab=b"-03\0-02\0")
     mk("syn_late", b"STD5DST,M3.2.0,M11.1.0", times=[t0, 4102444800 * 3], idx=[1, 2])
+    # standard/wall and UT/local indicator arrays: both, only the first (fat zic output for rules with "s" but no
+    # "u" switch times), only the second; in v2+ and in v1 files
+    mk("syn_ind_both", b"STD5DST,M3.2.0,M11.1.0", isstd=3, isut=3)
+    mk("syn_ind_std", b"STD5DST,M3.2.0,M11.1.0", isstd=3, isut=0)
+    mk("syn_ind_ut", b"STD5DST,M3.2.0,M11.1.0", isstd=0, isut=3)
+    mk("syn_ind_std_v1", None, version=b"\0", isstd=3, isut=0)
+    mk("syn_ind_ut_v1", None, version=b"\0", isstd=0, isut=3)
     # a big-bang entry whose type is NOT the before-first-transition type (type 0 = LMT is unreferenced): outside
     # wf_ast, but the two enumeration directions must still agree and the sentinel must not be reported
     mk("syn_bigbang_std", b"STD5DST,M3.2.0,M11.1.0", times=[BIG_BANG, t0 + 1000, 100000000, 110000000], idx=[1, 1, 2, 1])
